@@ -3549,17 +3549,16 @@ namespace regex
         constexpr bool match(match_options opts, const Buffer& buf, Stream& s) const
         {
             auto res = dfa_match(sm, opts, source_point{}, buf.begin(), buf.end(), s);
-            auto end = buf.begin() + res.len;
-            if (res.term_idx == 0 && end == buf.end())
-                return true;
-            else
+            if (res.term_idx != 0)
             {
-                if (res.term_idx == 0)
-                    s << "Leftover text after recognition: " << buf.get_view(end, buf.end()) << "\n";
-                else
-                    s << "Unexpected char: " << utils::c_names.name(*end) << "\n";
+                s << "No prefix of the text is recognized\n";
                 return false;
             }
+            auto end = buf.begin() + res.len;
+            if (end == buf.end())
+                return true;
+            s << "Leftover text after recognition: " << buf.get_view(end, buf.end()) << "\n";
+            return false;
         }
 
         template<typename Stream>
